@@ -379,13 +379,18 @@ def registers_differ(names: tuple[str, ...]) -> bool:
     return False
 
 
-def evaluate_pair(source: str, names: Optional[tuple[str, ...]]) -> list[dict[str, Any]]:
+_REPLAYS = [0]
+
+
+def evaluate_pair(source: str, names: Optional[tuple[str, ...]], name: str = PAIR_NAME) -> list[dict[str, Any]]:
     """Four evaluations: both environments, both orders, same template name within an order."""
+    for label in ENV_LABELS:  # both environments exist before the first analysis of the pair
+        get_env(label)
     out = []
     for first, second, suffix in PAIR_ORDERS:
         src = source + suffix
-        out.append(evaluate(first, src, names, "string", PAIR_NAME, f"first-of-pair:{first}-then-{second}"))
-        out.append(evaluate(second, src, names, "string", PAIR_NAME, f"second-of-pair:{first}-then-{second}"))
+        out.append(evaluate(first, src, names, "string", name, f"first-of-pair:{first}-then-{second}"))
+        out.append(evaluate(second, src, names, "string", name, f"second-of-pair:{first}-then-{second}"))
     for r in out:
         r["case"].update({"pair": True, "pair_source": source})  # shared with the violations' case
         r["outcome"] = "pair|" + r["outcome"]
@@ -519,7 +524,10 @@ class C21(Check):
         names = tuple(case["seq"]) if case.get("seq") is not None else None
         if case.get("pair"):
             out: list[dict[str, Any]] = []
-            for r in evaluate_pair(case["pair_source"], names):
+            # history is the subject here: every replay uses a template name of its own so that the
+            # two replays the runner compares start from the same (empty) history for that name
+            _REPLAYS[0] += 1
+            for r in evaluate_pair(case["pair_source"], names, f"{PAIR_NAME}-replay-{_REPLAYS[0]}"):
                 print(f"  env={r['case']['env']} source={r['case']['source']!r} outcome={r['outcome']}")
                 out.extend(r["violations"])
             return out
